@@ -97,7 +97,7 @@ def requirements(tier):
         "stop:timedelta": 100, "stop:date": 100,
         "with-listeners": 50,
         "numerical-stream-completed": 20, "state-compared:keplernum": 40,
-        "scenario:shuffle": 50, "scenario:interleave": 50, "scenario:listener-reuse": 30, "scenario:inplace-edit": 30,
+        "scenario:shuffle": 50, "scenario:interleave": 50, "scenario:listener-reuse": 30, "listener-reuse:dates-mode": 10, "listener-reuse:range-mode": 10, "scenario:inplace-edit": 30,
         "scenario:shared-propagator-sequential": 20, "scenario:shared-propagator-interleaved": 20,
         "scenario:copy-made": 30, "scenario:cold-cache": 20, "scenario:generator-interleave": 20,
         "history-compared-bitwise": 2000,
@@ -1269,6 +1269,15 @@ def history_case(ctx, job, idx, rng, st):
             sgn = -1 if back else 1
             big = {"type": "sss", "start": u, "start_eff": u, "stop": u + sgn * 7000 * US, "step": rng.choice([120, 300, 421]) * US,
                    "stop_kind": "date", "step_given": "pos", "step_omitted": False, "backward": back, "expected": []}
+        if rng.random() < 0.5:
+            # the same grid handed over as an explicit list of dates (the other documented way of iterating)
+            sg = -1 if big["backward"] else 1
+            nk = abs(big["stop"] - big["start"]) // big["step"]
+            big = dict(big, type="dates", container="list", order="descending" if big["backward"] else "ascending",
+                       expected=[big["start"] + sg * k * big["step"] for k in range(nk + 1)])
+            ctx.count("listener-reuse:dates-mode")
+        else:
+            ctx.count("listener-reuse:range-mode")
         q_big = ("i", big)
         mk = lambda: [L["NodeListener"](), L["ApsideListener"]()]
         ref_big = safe_answer(fresh(), q_big, "fresh listeners", listeners=mk())
